@@ -414,6 +414,22 @@ def damaged_metadata_sections(wd, t, rnd):
             out.append(("block-type", bb))
             off += 4 + size
             nb += 1
+        # text fields inside binary blocks: valid UTF-8 with multi-byte characters at every offset of a track's 12-byte ISRC and of the
+        # 128-byte catalog number (both are ASCII by the format; a reader that slices them must not assume it)
+        if x["class"].startswith("cuesheet") and len(x["blocks"]) == 2 and len(b) > 4 + 38 + 4 + 396 + 36:
+            body = 4 + 38 + 4
+            for ch in ("\u00e9", "\u8a9e", "\U0001F600"):
+                enc_ = list(ch.encode())
+                for pos in range(0, 13 - len(enc_)):
+                    isrc = [0x41 + (i % 26) if i < 5 else 0x30 + (i % 10) for i in range(12)]
+                    isrc[pos:pos + len(enc_)] = enc_
+                    bb = list(b)
+                    bb[body + 396 + 9:body + 396 + 21] = isrc
+                    out.append(("cuesheet-text-field", bb))
+                for pos in (0, 1, 12, 13):
+                    bb = list(b)
+                    bb[body + pos:body + pos + len(enc_)] = enc_
+                    out.append(("cuesheet-text-field", bb))
     return clist, encs, out
 
 
@@ -468,6 +484,14 @@ def run_c12(pid):
         for k in range(1, 258):
             lines += ["TRACK %d AUDIO" % k, "INDEX 01 %s" % (mmssff(k - 1) if cdda else str((k - 1) * 5))]
         add("cue", "many-tracks", text="\n".join(lines) + "\n", total=588 * 10 ** 6 + (0 if cdda else 1))
+    # non-ASCII arguments (multi-byte characters at every offset) where the importer slices fixed-width fields
+    for ch in ("\u00e9", "\u8a9e", "\U0001F600"):
+        for pos in range(0, 12):
+            isrc = "USABC0012345"
+            arg = isrc[:pos] + ch + isrc[pos + 1:]
+            add("cue", "non-ascii-argument", text="TRACK 01 AUDIO\n  ISRC %s\n  INDEX 01 00:00:00\n" % arg, total=588 * 10 ** 6)
+            add("cue", "non-ascii-argument", text="CATALOG %s\nTRACK 01 AUDIO\n  INDEX 01 00:00:00\n" % ("1234567890123"[:pos] + ch + "1234567890123"[pos + 1:]), total=588 * 10 ** 6)
+            add("cue", "non-ascii-argument", text="TRACK 01 AUDIO\n  INDEX 01 0%s:00:00\n" % (ch if pos == 0 else "0" + ch), total=588 * 10 ** 6)
     # (b) picture sniffing
     for cls, data in sniff_items(rnd):
         add("sniff", cls.split(" ")[0], bytes=data)
